@@ -35,6 +35,12 @@ def main():
         for n in sha_lens:
             jobs.append({'id': 's_%d' % n, 'kind': 'keccak', 'a': n, 'b': 1, 'abstract': ['keccak.KeccakF']})
             tasks.append({'kind': 'sponge', 'n': n, 'sha3': True, 'id': 's_%d' % n})
+        # history: a hash after another hash over overlapping storage in the same circuit
+        for n, k in ([(40, 16), (150, 8)] if not run.thorough else [(40, 16), (150, 8), (150, 140), (300, 136), (64, 0)]):
+            jobs.append({'id': 'kh_%d_%d' % (n, k), 'kind': 'keccak_hist', 'a': n, 'b': k, 'abstract': ['keccak.KeccakF']})
+            tasks.append({'kind': 'sponge', 'n': n, 'sha3': False, 'prefix': k, 'id': 'kh_%d_%d' % (n, k)})
+        jobs.append({'id': 'sh_40_16', 'kind': 'keccak_hist', 'a': 40, 'b': -16, 'abstract': ['keccak.KeccakF']})
+        tasks.append({'kind': 'sponge', 'n': 40, 'sha3': True, 'prefix': 16, 'id': 'sh_40_16'})
         t = time.time()
         paths = run_dump(jobs, procs=6)      # a multi-block sponge compile peaks at ~2.5 GB in gnark's builder
         run.log('compiled %d circuits in %.1fs' % (len(jobs), time.time() - t))
@@ -93,10 +99,16 @@ def replay(run, tk, o, cex, paths, rng):
         if cex and 'msg_bits' in cex:
             msgs.append(bytes(sum(cex['msg_bits'][8 * i + t] << t for t in range(8)) for i in range(n)))
         msgs += [bytes(rng.randrange(256) for _ in range(n)), b'\x00' * n, b'\xff' * n]
+        H = keccak_ref.sha3_256 if sha3 else keccak_ref.keccak256
+        bits = lambda bs: [(bs[i // 8] >> (i % 8)) & 1 for i in range(8 * len(bs))]
         for m in msgs:
-            dg = keccak_ref.sha3_256(m) if sha3 else keccak_ref.keccak256(m)
-            ins = [(m[i // 8] >> (i % 8)) & 1 for i in range(8 * n)] + [(dg[i // 8] >> (i % 8)) & 1 for i in range(256)]
-            g = dumper_solve({'id': 'x', 'kind': 'keccak', 'a': n, 'b': 1 if sha3 else 0}, ins)
+            dg = H(m)
+            if tk.get('prefix') is not None:
+                ins = bits(m) + bits(H(m[:tk['prefix']])) + bits(dg)
+                g = dumper_solve({'id': 'x', 'kind': 'keccak_hist', 'a': n, 'b': -tk['prefix'] if sha3 else tk['prefix']}, ins)
+            else:
+                ins = bits(m) + bits(dg)
+                g = dumper_solve({'id': 'x', 'kind': 'keccak', 'a': n, 'b': 1 if sha3 else 0}, ins)
             if not g['solved']:
                 run.violation('%s: gnark\'s solver rejects the real circuit on a %d-byte message with the standard %s digest' % (o['name'], n, 'SHA3-256' if sha3 else 'Keccak-256'),
                               {'message_hex': m.hex(), 'digest_hex': dg.hex(), 'sha3': sha3, 'gnark_error': g['error'][:300]}, key='keccak-digest')
